@@ -213,7 +213,58 @@ CLAIMED = {
              "edge only 'error, never a wrapped value'. Exhaustive inside the tables and the Unicode sweep, sampled for random values.",
         technique="TLA+ literal parsers and expression reader as the oracle; TLC-generated parse / constructor tables replayed into the "
                   "Go parsers and constructors; TLC trace validation of recorded print -> parse round trips (text read by the specification)"),
+    "C18": dict(
+        category="model_checking",
+        text="spec/Scanner.tla transcribes the buffered rune reader and token-text assembly of internal/parser/cedar_tokenize.go "
+             "(refill with spill of the partial token, move of unread bytes, sentinel, partial-rune wait, EOF / error handling, "
+             "line / column / lastLineLen bookkeeping, token text = spilled head + buffer tail) as a state machine whose "
+             "environment is the io.Reader: each Read returns any 0..min(cap, remaining) bytes, optionally with EOF, or fails at "
+             "any byte position. TLC explores EVERY schedule at a scaled-down buffer (6 bytes; 5, 6, 8 thorough) over documents in "
+             "which words, one-character tokens, strings, 2/3/4-byte characters, blanks and line feeds straddle the buffer end and "
+             "checks: emitted tokens (text, byte offset, line, column) are a prefix of the reference tokenization at every step and "
+             "equal to it at the end; the buffer mirrors the document; a failing reader ends in an error; no deadlock; termination. "
+             "Simulated behaviours of the same model (document, exact (n, eof, fail) of every Read, specified tokens or error) are "
+             "replayed on the real tokenizer (verif hook) with a reader performing exactly those reads. Documents of 0-5 KB "
+             "assembled from rendered random policies (CR LF mixes, comments and strings with non-ASCII text, long identifiers, "
+             "padding onto the 1024-byte buffer end) are run under 10 (16) reader schedules each -- single bytes, small random "
+             "sizes, whole buffers, reads ending around the buffer end, zero-length reads, EOF with the last bytes, faults at random "
+             "positions -- and validated by TLC (Trace_Scanner over ScannerRef!LexPos, the reference tokenization of Cedar text "
+             "with positions): tokens = reference; every schedule = whole slice (tokens, decoded policies, positions, error "
+             "text); fault => error; Policy.Position() and the positions in authorization diagnostics = first token of each policy.",
+        design_ref="DESIGN.md 4 C18",
+        note=TRUSTED + "Hook: x/exp/verifhook (build tag verif) re-exports the tokenizer. The token grammar of the exhaustively "
+             "explored model is reduced (words, '(' and strings); Cedar token classes are specified by ScannerRef!LexPos and checked "
+             "on recorded runs. Exhaustive at buffer sizes 5-8; the 1024-byte machine is reached by replayed and random schedules. "
+             "The EOF token's position is not compared; damaged documents are only compared across schedules.",
+        technique="TLA+ state machine of the scanner with the reader as environment, model-checked over all schedules; TLC-generated "
+                  "behaviours replayed into the Go tokenizer; TLC trace validation of recorded tokenizer / streaming-decoder runs "
+                  "against a TLA+ reference tokenization with positions"),
+    "C09": dict(
+        category="model_checking",
+        text="spec/PolicyJson.tla (over ValueJson / TextForms) reads a JSON policy document itself -- handed to TLC in a tagged form with "
+             "strings as code points, integers as limb numbers and object members in document order -- under the documented format "
+             "(scope objects; conditions; one-key expression objects for Value, Var, every unary / binary operator, . / has, is with "
+             "optional in, like with pattern lists, if-then-else, Set, Record; unknown key = extension call; __entity / __extn "
+             "escapes) and defines SameAst (annotations and record-literal entries by key, a constructor call on a valid literal = "
+             "the value it denotes, adjacent wildcards collapse). TLC enumerates the inputs: the C07/C08 syntax universe (every "
+             "parent/child/position triple, value leaves only programs / JSON can build incl. every boundary decimal / datetime / "
+             "duration / ipaddr / long, odd attribute names, annotations over the boundary strings), policy sets under every id "
+             "pattern, the expression universe; each as built from the AST, reparsed from its text and decoded from its JSON. The "
+             "harness encodes with the real MarshalJSON, decodes with the real UnmarshalJSON, re-encodes, takes the detour JSON -> "
+             "text -> JSON and authorizes every variant; Trace_PolicyJson demands that the specification's reading of the RECORDED "
+             "document is the subject's AST (an encoder and decoder wrong in the same way are caught), that the decoded policy is "
+             "SameAst, that the detour equals what the text alone denotes, that all variants have the same outcome (= "
+             "CedarPolicy!Outcome for random policies under random environments), that bytes repeat, and that policy-set JSON "
+             "preserves ids and the policy under every id.",
+        design_ref="DESIGN.md 4 C09",
+        note=TRUSTED + "The JSON format in PolicyJson.tla is a transcription of the documented one (one deviation of the code is read "
+             "as written: `in` with an empty entity list has no `entities` member). ASTs calling functions Cedar does not have are "
+             "outside the quantifier. Spellings other encoders may write are not generated.",
+        technique="TLA+ reader of the JSON policy format and AST comparison form as the judge; TLC-enumerated ASTs encoded and decoded by "
+                  "the Go code; TLC trace validation of every recorded round trip (document read by the specification) and of random policies"),
 }
+
+HOOK_COMMITS = ["82e75f7fe48a39cfaaa51c07619f57b1dcd3cfd5"]   # /repo: x/exp/verifhook/verifhook.go (//go:build verif), re-exports the policy tokenizer (C18)
 
 PENDING ="check under construction in this session (the specification modules it needs are being written; see DESIGN.md 10)"
 
@@ -239,7 +290,7 @@ def main():
         setup_cmd="cd /verif && python3 tools/setup.py",
         hooks=dict(guard="verif", enable="go build -tags verif (the harness module replaces github.com/cedar-policy/cedar-go with /repo)",
                    baseline_off_cmd="cd /repo && go test -vet=off -count=1 -timeout 25m ./...",
-                   source_commits=[], add_only=True),
+                   source_commits=HOOK_COMMITS, add_only=True),
         engines=[dict(name="tla-conformance", path="/verif/tools/check.py", serves_properties=sorted(CLAIMED),
                       kind_free_text="explicit TLA+ specification (spec/*.tla) checked with TLC; bound to the Go code by replaying "
                                      "TLC-generated cases/behaviours into the real code (harness `replay`) and by validating traces "
